@@ -10,6 +10,10 @@ package main
 //   c19.stateinit  (addr si boc lib ext)                            -> (compareStateInitWithAddress ParseStateInit)
 //   c19.check      (secret ltproof ltpayload domain exec proof now hmac b64 boc lib ext verify)
 //                                                                   -> CheckProof: (t key) | 'err | 'panic
+//   c19.hist       (secret ltproof ltpayload domain now concurrent (call...)), call = (exec proof hmac b64 boc lib ext verify)
+//                                                                   -> one c19.check result per call, all calls on ONE Server value
+//                                                                      (concurrent: all calls at once from goroutines, twice);
+//                                                                      the model evaluates every call alone
 //   c19.clock      (ltproof ltpayload dproof dpayload usegen)       -> CheckProof of an honest proof built at the
 //                                                                      real clock with timestamps now+d
 // The columns hmac, b64, boc, lib, ext, verify are oracle data for the model (computed here with
@@ -29,6 +33,7 @@ import (
 	"fmt"
 	"math/big"
 	"strings"
+	"sync"
 	"time"
 
 	"github.com/tonkeeper/tongo/boc"
@@ -49,6 +54,7 @@ func init() {
 	execs["c19.stateinit"] = execC19StateInit
 	execs["c19.check"] = execC19Check
 	execs["c19.clock"] = execC19Clock
+	execs["c19.hist"] = execC19Hist
 	gens["C19"] = genC19
 	gens["C19corpus"] = genC19Corpus
 }
@@ -994,6 +1000,7 @@ func genC19(c *Ctx) {
 			}
 		}
 	}
+	genC19Hist(c)
 	genC19Clock(c)
 }
 
@@ -1319,5 +1326,232 @@ func genC19Corpus(c *Ctx) {
 		tp2 := *tp
 		tp2.Proof.Signature = base64.StdEncoding.EncodeToString(c19ForgeZeroKey(msg))
 		c19Emit(c, "corpus-zerokey|"+z.name, c19CheckCase(secret, 0, 0, "zoo", c19ExecErr, &tp2, pub, make([]byte, 32)), false, nil, "zero-key-")
+	}
+	// a 2-call history on one Server: own login with state-init S, then S for a victim's address
+	// (a cache of verified state-inits that is not keyed by the address accepts the second call)
+	att, login := c19Login(r, wallet.V4R2, true, secret, "zoo", "")
+	victim := c19NewWallet(r, wallet.V3R2, 0)
+	forged := c19Forge(r, "foreign-stateinit", victim.id, att.si, att.priv, secret, "zoo", c19ExecErr)
+	c19EmitHist(c, "corpus|own-login-then-victim", secret, "zoo", false, []c19Call{login, forged})
+	c19EmitHist(c, "corpus|own-login-then-victim", secret, "zoo", true, []c19Call{login, forged})
+}
+
+// ---------------------------------------------------------------- histories on one Server
+
+// c19HistExec is the executor of a history: sequential histories set the script before each
+// call, concurrent ones look the script up by account.
+type c19HistExec struct {
+	mu    sync.Mutex
+	cur   c19Exec
+	byAcc map[ton.AccountID]c19Exec
+}
+
+func (e *c19HistExec) RunSmcMethodByID(ctx context.Context, a ton.AccountID, m int, p tlb.VmStack) (uint32, tlb.VmStack, error) {
+	e.mu.Lock()
+	x := e.cur
+	if e.byAcc != nil {
+		var ok bool
+		if x, ok = e.byAcc[a]; !ok {
+			x = c19Exec{err: fmt.Errorf("no such account")}
+		}
+	}
+	e.mu.Unlock()
+	return x.code, x.stack, x.err
+}
+
+func execC19Hist(in sx.V) sx.V {
+	l := in.List
+	secret, domain, conc, calls := string(l[0].Bytes), string(l[3].Bytes), l[5].Bool, l[6].List
+	ex := &c19HistExec{}
+	srv := c19Server(ex, secret, l[1].Int.Int64(), l[2].Int.Int64())
+	one := func(call sx.V) (out sx.V) {
+		defer func() {
+			if r := recover(); r != nil {
+				out = sx.A("panic")
+			}
+		}()
+		tp := c19ProofFromSx(call.List[1])
+		ok, key, err := srv.CheckProof(context.Background(), tp, srv.CheckPayload, tonconnect.StaticDomain(domain))
+		if err != nil || !ok {
+			if ok || key != nil {
+				return sx.L(sx.A("inconsistent-result"))
+			}
+			return sx.A("err")
+		}
+		return sx.L(sx.B(true), sx.Bytes(append([]byte{}, key...)))
+	}
+	if !conc {
+		var outs []sx.V
+		for _, call := range calls {
+			ex.mu.Lock()
+			ex.cur = c19ExecFromSx(call.List[0])
+			ex.mu.Unlock()
+			outs = append(outs, one(call))
+		}
+		return sx.L(outs...)
+	}
+	ex.byAcc = map[ton.AccountID]c19Exec{}
+	for _, call := range calls {
+		if id, err := ton.ParseAccountID(string(call.List[1].List[0].Bytes)); err == nil {
+			ex.byAcc[id] = c19ExecFromSx(call.List[0])
+		}
+	}
+	outs := make([]sx.V, 2*len(calls))
+	for round := 0; round < 2; round++ {
+		var wg sync.WaitGroup
+		for i, call := range calls {
+			wg.Add(1)
+			go func(i int, call sx.V) {
+				defer wg.Done()
+				outs[round*len(calls)+i] = one(call)
+			}(i, call)
+		}
+		wg.Wait()
+	}
+	return sx.L(outs...)
+}
+
+type c19Call struct {
+	name   string
+	ex     sx.V
+	tp     *tonconnect.Proof
+	accept bool
+	want   []byte
+	keys   [][]byte // keys for the verify column
+}
+
+func c19HistCase(secret string, ltp, ltpl int64, domain string, conc bool, calls []c19Call) sx.V {
+	var cs []sx.V
+	for _, cl := range calls {
+		f := c19CheckCase(secret, ltp, ltpl, domain, cl.ex, cl.tp, cl.keys...).List
+		cs = append(cs, sx.L(f[4], f[5], f[7], f[8], f[9], f[10], f[11], f[12]))
+	}
+	return sx.L(sx.Str(secret), sx.Z(ltp), sx.Z(ltpl), sx.Str(domain), sx.Z(c19Now*1e9+500000000), sx.B(conc), sx.L(cs...))
+}
+
+func c19EmitHist(c *Ctx, class string, secret, domain string, conc bool, calls []c19Call) {
+	in := c19HistCase(secret, 0, 0, domain, conc, calls)
+	mode := "seq"
+	if conc {
+		mode = "conc"
+	}
+	out := c.Emit("c19.hist", in, fmt.Sprintf("%s|%s|n%d", class, mode, len(calls)))
+	if out.K != sx.KL {
+		c.Fail("c19.hist", in, "hist-shape", "history did not return a list")
+		return
+	}
+	for i, o := range out.List {
+		cl := calls[i%len(calls)]
+		switch {
+		case o.IsA("panic"):
+			c.Fail("c19.hist", in, "hist-panic", fmt.Sprintf("call %d (%s) panicked", i, cl.name))
+		case cl.accept && (o.K != sx.KL || len(o.List) != 2 || string(o.List[1].Bytes) != string(cl.want)):
+			c.Fail("c19.hist", in, "hist-honest-rejected", fmt.Sprintf("call %d (%s): honest proof not accepted with the wallet key", i, cl.name))
+		case !cl.accept && !o.IsA("err"):
+			c.Fail("c19.hist", in, "hist-accepted", fmt.Sprintf("call %d (%s): accepted although it must be rejected whatever came before", i, cl.name))
+		}
+	}
+}
+
+// an honest login under the history's secret and domain
+func c19Login(r *prng.R, ver wallet.Version, viaSI bool, secret, domain string, payload string) (c19Wallet, c19Call) {
+	w := c19NewWallet(r, ver, []int{0, 0, -1}[r.Intn(3)])
+	if payload == "" {
+		payload = c19MakePayload(secret, r.Bytes(8), c19Far+int64(r.Intn(1000)))
+	}
+	tp, err := tonconnect.CreateSignedProof(payload, w.id, w.priv, w.st, tonconnect.ProofOptions{Timestamp: time.Unix(c19Far+int64(r.Intn(1000)), 0), Domain: domain})
+	if err != nil {
+		panic(err)
+	}
+	ex := c19ExecErr
+	if !viaSI {
+		ex = c19ExecKey(0, w.pub)
+	}
+	return w, c19Call{name: "login", ex: ex, tp: tp, accept: true, want: w.pub, keys: [][]byte{w.pub}}
+}
+
+// proof for `address` carrying state-init si, signed by priv over the presented fields
+func c19Forge(r *prng.R, name string, address ton.AccountID, si string, priv ed25519.PrivateKey, secret, domain string, ex sx.V) c19Call {
+	payload := c19MakePayload(secret, r.Bytes(8), c19Far)
+	tp := &tonconnect.Proof{Address: address.ToRaw(), Proof: tonconnect.ProofData{Timestamp: c19Far, Domain: domain, Payload: payload, StateInit: si}}
+	p, _ := tonconnect.VerifConvert(tp)
+	msg, _ := tonconnect.VerifCreateMessage(p.WorkChain, p.Address, p.Ts, p.Domain, p.Payload)
+	tp.Proof.Signature = base64.StdEncoding.EncodeToString(ed25519.Sign(priv, msg))
+	return c19Call{name: name, ex: ex, tp: tp, accept: false, keys: [][]byte{priv.Public().(ed25519.PublicKey)}}
+}
+
+func genC19Hist(c *Ctx) {
+	r := c.R
+	siVers := []wallet.Version{wallet.V1R3, wallet.V2R2, wallet.V3R1, wallet.V3R2, wallet.V4R1, wallet.V4R2, wallet.V5Beta, wallet.V5R1}
+	n := c.Scale(6, 40)
+	for k := 0; k < n; k++ {
+		secret := string(r.Bytes(1 + r.Intn(16)))
+		domain := c19Domain(r)
+		conc := k%3 == 2
+		ver := siVers[r.Intn(len(siVers))]
+
+		// H1: the attacker logs in with his own undeployed wallet (state-init S), then presents S for the
+		// victim's address (victim's get-method fails), signed with his own key
+		att, login := c19Login(r, ver, true, secret, domain, "")
+		victim := c19NewWallet(r, siVers[r.Intn(len(siVers))], 0)
+		forged := c19Forge(r, "foreign-stateinit", victim.id, att.si, att.priv, secret, domain, c19ExecErr)
+		_, vlogin := c19Login(r, ver, true, secret, domain, "")
+		c19EmitHist(c, "own-login-then-victim", secret, domain, conc, []c19Call{login, forged})
+		c19EmitHist(c, "forged-login-forged-victimlogin", secret, domain, conc, []c19Call{forged, login, forged, vlogin, forged})
+
+		// H2: same address, then another wallet's state-init for it (signed by the other), then again the honest one
+		other, ologin := c19Login(r, siVers[r.Intn(len(siVers))], true, secret, domain, "")
+		swapped := c19Forge(r, "other-stateinit-same-address", att.id, other.si, other.priv, secret, domain, c19ExecErr)
+		c19EmitHist(c, "same-address-other-stateinit", secret, domain, conc, []c19Call{login, ologin, swapped, login})
+
+		// H3: the key came from the get-method first; later the get-method fails and a foreign state-init is offered
+		dep, dlogin := c19Login(r, ver, false, secret, domain, "")
+		late := c19Forge(r, "getmethod-then-foreign-stateinit", dep.id, att.si, att.priv, secret, domain, c19ExecErr)
+		if !conc { // the executor script of dep's account changes between the calls
+			c19EmitHist(c, "getmethod-then-stateinit", secret, domain, false, []c19Call{dlogin, login, late, dlogin})
+		}
+
+		// H4: replays and payload reuse: the same proof again; the same payload in another wallet's proof;
+		// expired / foreign payloads before and after a good one
+		payload := c19MakePayload(secret, r.Bytes(8), c19Far)
+		_, a1 := c19Login(r, ver, true, secret, domain, payload)
+		_, a2 := c19Login(r, siVers[r.Intn(len(siVers))], r.Bool() && !conc, secret, domain, payload)
+		expired := *a1.tp
+		c19EmitHist(c, "replay-and-payload-reuse", secret, domain, conc, []c19Call{a1, a1, a2, a1})
+		old, oldLogin := c19Login(r, ver, true, secret, domain, c19MakePayload(secret, r.Bytes(8), 1000000000))
+		oldLogin.accept, oldLogin.name = false, "expired-payload"
+		_ = old
+		_, foreign := c19Login(r, ver, true, secret, domain, c19MakePayload(secret+"x", r.Bytes(8), c19Far))
+		foreign.accept, foreign.name = false, "foreign-payload"
+		expired.Proof.Timestamp = 1000000000
+		stale := c19Call{name: "timestamp-changed", ex: a1.ex, tp: &expired, accept: false, keys: a1.keys}
+		c19EmitHist(c, "good-then-expired-or-foreign", secret, domain, conc, []c19Call{a1, oldLogin, foreign, stale, a1, oldLogin})
+
+		// H5: random histories of 2..6 calls over logins and the substitution families
+		if !conc {
+			pool := []c19Call{login, forged, ologin, swapped, dlogin, a1, a2, oldLogin, foreign, stale, vlogin}
+			// substitutions of `login`: signature bit flip, other signer, domain, address digit, missing state-init
+			sig, _ := base64.StdEncoding.DecodeString(login.tp.Proof.Signature)
+			sig[r.Intn(64)] ^= byte(1 << r.Intn(8))
+			t1 := *login.tp
+			t1.Proof.Signature = base64.StdEncoding.EncodeToString(sig)
+			t2 := *login.tp
+			t2.Proof.Domain += "x"
+			t3 := *login.tp
+			t3.Proof.StateInit = ""
+			t4 := *login.tp
+			t4.Address = fmt.Sprintf("%d:%x", att.wc+1, att.id.Address)
+			for i, t := range []*tonconnect.Proof{&t1, &t2, &t3, &t4} {
+				pool = append(pool, c19Call{name: fmt.Sprintf("subst%d", i), ex: c19ExecErr, tp: t, accept: false, keys: [][]byte{att.pub}})
+			}
+			for j := 0; j < c.Scale(2, 6); j++ {
+				m := 2 + r.Intn(5)
+				var calls []c19Call
+				for i := 0; i < m; i++ {
+					calls = append(calls, pool[r.Intn(len(pool))])
+				}
+				c19EmitHist(c, "random", secret, domain, false, calls)
+			}
+		}
 	}
 }
